@@ -453,7 +453,8 @@ func runC20System(t *testing.T, seed uint64, m *Mask, opt world.Options, r *simr
 	rep.Cell = "system:" + proto
 	out := world.Run(t, opt, func(e *world.Env) {
 		e.AllowUnknownArgs = true
-		srv := e.NewPeer("srv", erpc.PeerConfig{}, &dirtyPlugin{env: e})
+		greeter := &c20Greeter{}
+		srv := e.NewPeer("srv", erpc.PeerConfig{}, &dirtyPlugin{env: e}, greeter)
 		srv.RouteCall(new(Dirty))
 		// unknown-call / unknown-push handlers run on pooled contexts too: what they are given (possibly an
 		// empty body) must be what this message carried, whatever the context held before
@@ -567,6 +568,31 @@ func runC20System(t *testing.T, seed uint64, m *Mask, opt world.Options, r *simr
 				e.Probe("c20-unsupported-type-frame")
 			}
 		}
+		// a connection hook greets a new connection through the pre-session API (PreSend / RawPush use pooled messages
+		// of their own) and the write fails: afterwards the message pool must hand out two different, blank messages
+		if e.Gen.Chance(0.5) {
+			ra, rb := e.Net.Pair()
+			rb.FailWrite(0, e.Gen.Intn(5))
+			greeter.mode = 1 + e.Gen.Intn(2)
+			srv.ServeConn(rb, pf)
+			greeter.mode = 0
+			simrt.WaitQuiescent()
+			ra.Close()
+			m1, m2 := socket.GetMessage(), socket.GetMessage()
+			if m1 == m2 {
+				e.Fail("C20/recycled-message-handed-out-twice", "after a pre-session send whose write failed (greeting sent: %d, failed: %d) the message pool handed the same Message to two users", greeter.sent, greeter.failed)
+			}
+			for i, mm := range []socket.Message{m1, m2} {
+				if mm.ServiceMethod() != "" || mm.Meta().Len() != 0 || mm.Seq() != 0 || mm.Body() != nil {
+					e.Fail("C20/recycled-message-not-blank", "message #%d from the pool after a failed pre-session send is not blank: %s", i, viewMsg(mm))
+				}
+			}
+			socket.PutMessage(m1)
+			if m2 != m1 {
+				socket.PutMessage(m2)
+			}
+			e.Probe("c20-pre-session-send-failed")
+		}
 		// and ordinary calls again, on contexts that have meanwhile handled pushes and unknown messages
 		for i := n; i < n+3; i++ {
 			run(i)
@@ -616,6 +642,30 @@ func (c20Tracer) Name() string { return "c20-tracer" }
 func (c20Tracer) PreWriteCall(c erpc.WriteCtx) *erpc.Status {
 	if mk := c.Output().Meta().Peek("Mk"); len(mk) > 0 {
 		c.Swap().Store("c20-trace", "trace-of-"+string(mk))
+	}
+	return nil
+}
+
+// c20Greeter is a PostAccept plugin that greets a new connection through the pre-session API.
+type c20Greeter struct {
+	mode         int // 0 off, 1 PreSend, 2 RawPush
+	sent, failed int
+}
+
+func (g *c20Greeter) Name() string { return "c20-greeter" }
+func (g *c20Greeter) PostAccept(s erpc.PreSession) *erpc.Status {
+	var st *erpc.Status
+	switch g.mode {
+	case 0:
+		return nil
+	case 1:
+		st = s.PreSend(erpc.TypePush, "/greet", []byte("hello from the server"), nil, erpc.WithBodyCodec('s'), erpc.WithAddMeta("Owner", "greeter"))
+	case 2:
+		st = s.RawPush("/greet", []byte("hello from the server"), erpc.WithBodyCodec('s'), erpc.WithAddMeta("Owner", "greeter"))
+	}
+	g.sent++
+	if !st.OK() {
+		g.failed++
 	}
 	return nil
 }
